@@ -787,6 +787,15 @@ func streamCont(o *Out, r *rand.Rand, n int, thorough bool) {
 		{"t = make([]int64, 3)\nt[0] = 1\nt[1] = 2\nt[0], t[1] = t[1], t[0]\nt", "[]int64[int64:2 int64:1 int64:0]"},
 		{"t = make([]int64, 2)\nt[0] = 7\nr = []\nfor v in t {\nt[0] = 9\nt[1] = 9\nr += v\n}\nr", "[]iface[int64:7 int64:9]"},
 		{"x = make(S)\nx.A = 1\nv = x.A\nx.A = 3\n[v, x.A]", "[]iface[int64:1 int64:3]"},
+		// slots whose values are themselves references (slices, maps): a binding holds the value the slot had, not the slot
+		{"a = make([][]int64, 2)\na[0] = [1, 2]\nx = a[0]\na[0] = [7, 8, 9]\n[len(x), x[0]]", "[]iface[int64:2 int64:1]"},
+		{"b = make([][]int64, 2)\nb[0] = [1]\nb[1] = [2, 2]\nb[0], b[1] = b[1], b[0]\n[len(b[0]), len(b[1])]", "[]iface[int64:2 int64:1]"},
+		{"m = make([]map[string]int64, 2)\nm[0] = {\"a\": 1}\ny = m[0]\nm[0] = {\"b\": 2, \"c\": 3}\nlen(y)", "int64:1"},
+		{"x = make(S)\nx.C = [1, 2]\ny = x.C\nx.C = [7, 8, 9]\nlen(y)", "int64:2"},
+		{"x = make(S)\nx.D = {\"a\": 1}\nvar y = x.D\nx.D = {}\nlen(y)", "int64:1"},
+		{"a = make([][]int64, 1)\na[0] = [1, 2]\nfunc f(v) { a[0] = [5]; return len(v) }\nf(a[0])", "int64:2"},
+		{"a = make([][]int64, 2)\na[0] = [1]\na[1] = [2, 2]\nr = []\nfor v in a {\na[1] = [3, 3, 3]\nr += len(v)\n}\nr", "[]iface[int64:1 int64:3]"},
+		{"a = make([][]int64, 1)\na[0] = [1, 2]\nx = a[0]\nx[0] = 9\na[0][0]", "int64:9"},
 		{"x = make(S)\ny = x\ny.A = 4\n[x.A, y.A]", "SKIP"},
 		{"x = make(S)\nx.Nope = 1", "ERROR"}, {"x = make(S)\nx.Nope", "ERROR"}, {"x = make(S)\nx.A = 3\nx.A", "int64:3"},
 		{"x = make(S)\nx.C = [1, 2]\nx.C[1]", "int64:2"}, {"x = make(S)\nx.D = {\"a\": 1}\nx.D.a", "int64:1"}, {"x = make(S)\nx.G = [1]\nx.G", "[]iface[int64:1]"},
